@@ -1,7 +1,18 @@
 PROPERTY = "C19"
+ENCODED = ["MinidumpWriter::{dump,generate_dump,crash_thread_references_principal_mapping}", "sections::{app_memory,memory_list_stream,exception_stream}::write", "PtraceDumper::{late_init,find_mapping_no_bias}", "<PtraceDumper as Drop>::drop"]
+BOUNDS = {"history": "one inductive step: dump() on a writer whose public state fields hold ARBITRARY left-overs (one stale memory descriptor with symbolic fields, a stale crashing-thread context, a stale resolved principal mapping) - over-approximates every earlier sequence of dumps",
+          "options": "0/1 application region (8 bytes, symbolic address); skip-unreferenced with a symbolic principal address in no mapping"}
+OUTSIDE = ["equivalence with a fresh writer for the streams that come from /proc or ptrace (they do not depend on writer state; their writers are modelled)",
+           "the bytes of the image (quick tier observes generate_dump at the DirSection boundary; the thorough tier attempts the same with the real DirSection and a byte-level oracle)"]
+ASSUMPTIONS = ["modelled dumper constructor / suspend / resume / section writers / write_file / write_soft_errors (DESIGN.md 2.3)", "quick tier: DirSection::{write_to_file,dump_dir_entry} replaced by loggers (their own behaviour is C09/C10)",
+               "copy_from_process contract stub; SystemTime::now arbitrary; std::fmt::format stubbed; Vec::resize memset model"]
 SK = {"extend_with": 60, "ArrDest": 660, "MINIDUMP_EXCEPTION": 20, "alloc_from_array": 8}
-def K(n, d, tier="quick", **kw): return H("c19_dump::" + n, desc=d, tier=tier, loops=SK, timeout=3000, est_gb=16, mem_gb=34, fs_array=1024, **kw)
+def K(n, d, tier="thorough", **kw): return H("c19_dump::" + n, desc=d, tier=tier, loops=SK, timeout=3400, est_gb=20, mem_gb=40, fs_array=1024, **kw)
+def G(n, d, tier="quick", **kw): return H("c19_dump::" + n, desc=d, tier=tier, loops={"MINIDUMP_EXCEPTION": 20, "alloc_from_array": 8}, timeout=2400, est_gb=10, mem_gb=24, **kw)
 HARNESSES = [
-    K("c19_dump_fresh", "fresh writer, one application region"),
-    K("c19_dump_reused_writer", "writer with arbitrary left-over memory_blocks / crashing_thread_context, one application region"),
+    G("g_dump_fresh", "fresh writer, one application region"),
+    G("g_dump_reused_writer", "writer with arbitrary left-over memory_blocks / crashing_thread_context / principal_mapping, one application region"),
+    G("g_dump_reused_principal_mapping", "reused writer, skip-unreferenced, the principal address now matches no mapping"),
+    K("c19_dump_reused_writer", "byte-level: real DirSection, 640-byte destination"),
+    K("c19_dump_fresh", "byte-level: fresh writer"),
 ]
